@@ -12,6 +12,8 @@ structure JObj where
   key : Key
   ns  : String
   tok : Val
+  name : String := ""
+  val : String := ""
   deriving DecidableEq, Repr, Inhabited
 
 def jget : List JObj → Key → Option JObj
@@ -39,5 +41,28 @@ def joinGet (cols : List (List JObj)) (k : Key) : Option Val := AMap.lookup (joi
 /-- `Index.Lookup` of the namespace index on the join. -/
 def joinLookup (cols : List (List JObj)) (ns : String) : FinMap :=
   ((joinObjs cols).filter (fun o => o.ns == ns)).map (fun o => (o.key, o.tok))
+
+/-! ### `krt.JoinWithMergeCollection` with the harness's merge function: the objects of one key, in
+    collection order, are merged into one object whose value joins theirs with `+`; the merge
+    function returns nil (no object) when the first value is `v3`. -/
+
+def mergeKeys (cols : List (List JObj)) : List Key :=
+  (cols.flatMap (fun c => c.map (·.key))).eraseDups
+
+def mergeOne (cols : List (List JObj)) (k : Key) : Option JObj :=
+  match cols.filterMap (fun c => jget c k) with
+  | [] => none
+  | o :: rest =>
+    if o.val == "v3" then none
+    else
+      let v := "+".intercalate ((o :: rest).map (·.val))
+      some { key := k, ns := o.ns, name := o.name, val := v, tok := o.ns ++ ";" ++ o.name ++ ";;;;;" ++ v }
+
+def mergeObjs (cols : List (List JObj)) : List JObj := (mergeKeys cols).filterMap (mergeOne cols)
+
+def mergeContents (cols : List (List JObj)) : FinMap := (mergeObjs cols).map (fun o => (o.key, o.tok))
+
+def mergeLookup (cols : List (List JObj)) (ns : String) : FinMap :=
+  ((mergeObjs cols).filter (fun o => o.ns == ns)).map (fun o => (o.key, o.tok))
 
 end IstioModel.C16
